@@ -53,7 +53,7 @@ func H_C04_symbols() {
 		pool = []string{"<>", "<=", ">="}
 	case tkExpression:
 		pool = []string{"<=", ">=", "<>", "!=", ">>", "<<"}
-	case tkCsv:
+	case tkCsv, tkCsvWide:
 		pool = []string{"\r\n", "\n\r", "\n", "\r"}
 	default:
 		pool = []string{"{{", "}}", "{{{", "}}}"}
